@@ -552,7 +552,18 @@ fn tc(req: &J) -> J {
                 parents.insert(uid(e[1].as_u64().unwrap_or(0) as usize));
             }
         }
-        ents.push(Entity::new_with_attr_partial_value(uid(i), [], std::collections::HashSet::new(), parents, []));
+        // `direct` (optional): which of the links are direct parents; the others are stored as indirect ancestors
+        let mut indirect = std::collections::HashSet::new();
+        if let Some(direct) = req["direct"].as_array() {
+            let is_direct = |j: usize| direct.iter().any(|d| d[0].as_u64() == Some(i as u64) && d[1].as_u64() == Some(j as u64));
+            for j in 0..nk {
+                if parents.contains(&uid(j)) && !is_direct(j) {
+                    parents.remove(&uid(j));
+                    indirect.insert(uid(j));
+                }
+            }
+        }
+        ents.push(Entity::new_with_attr_partial_value(uid(i), [], indirect, parents, []));
     }
     let mode = if req["mode"].as_str() == Some("enforce") { TCComputation::EnforceAlreadyComputed } else { TCComputation::ComputeNow };
     match Entities::from_entities(ents, None::<&NoEntitiesSchema>, mode, Extensions::all_available()) {
@@ -832,6 +843,370 @@ fn link_json(req: &J) -> J {
     }
 }
 
+/// the same authorization request through the Rust API and through the JSON (FFI) interface (stateless or stateful with a pre-parsed policy set).
+/// in: {policies: {id: text}, entities: JSON, principal/action/resource: {type, id}, context: JSON, stateful: bool}
+/// out: {api: {decision, reasons, errors}, ffi: {decision, reasons, errors} | {failure: [..]}}
+fn ffi_authorize(req: &J) -> J {
+    use cedar_policy::{Context, EntityUid, Policy, PolicyId};
+    let uid = |j: &J| EntityUid::from_type_name_and_id(j["type"].as_str().unwrap_or("").parse().unwrap(), j["id"].as_str().unwrap_or("").parse().unwrap());
+    let mut ps = PolicySet::new();
+    let empty = serde_json::Map::new();
+    let pols = req["policies"].as_object().unwrap_or(&empty);
+    for (id, text) in pols {
+        match Policy::parse(Some(PolicyId::new(id)), text.as_str().unwrap_or("")) {
+            Ok(p) => {
+                if let Err(e) = ps.add(p) {
+                    return json!({"input_error": e.to_string()});
+                }
+            }
+            Err(e) => return json!({"input_error": e.to_string()}),
+        }
+    }
+    let ents = match Entities::from_json_value(req["entities"].clone(), None) {
+        Ok(e) => e,
+        Err(e) => return json!({"input_error": e.to_string()}),
+    };
+    let cx = match Context::from_json_value(req["context"].clone(), None) {
+        Ok(c) => c,
+        Err(e) => return json!({"input_error": e.to_string()}),
+    };
+    let q = match Request::new(uid(&req["principal"]), uid(&req["action"]), uid(&req["resource"]), cx, None) {
+        Ok(q) => q,
+        Err(e) => return json!({"input_error": e.to_string()}),
+    };
+    let r = Authorizer::new().is_authorized(&q, &ps, &ents);
+    let mut reasons: Vec<String> = r.diagnostics().reason().map(|p| p.to_string()).collect();
+    reasons.sort();
+    let mut errors: Vec<String> = r.diagnostics().errors().map(|e| match e { cedar_policy::AuthorizationError::PolicyEvaluationError(pe) => pe.policy_id().to_string() }).collect();
+    errors.sort();
+    let api = json!({"decision": format!("{:?}", r.decision()).to_lowercase(), "reasons": reasons, "errors": errors});
+    // the JSON interface
+    let static_policies: serde_json::Map<String, J> = pols.iter().map(|(k, v)| (k.clone(), v.clone())).collect();
+    let stateful = req["stateful"].as_bool().unwrap_or(false);
+    let ans = if stateful {
+        let pre = cedar_policy::ffi::preparse_policy_set("ps1".to_string(), serde_json::from_value(json!({"staticPolicies": static_policies})).unwrap());
+        let _ = pre;
+        let call = json!({"principal": req["principal"], "action": req["action"], "resource": req["resource"], "context": req["context"],
+                          "preparsedPolicySetId": "ps1", "entities": req["entities"], "validateRequest": false});
+        match serde_json::from_value(call) {
+            Ok(c) => serde_json::to_value(cedar_policy::ffi::stateful_is_authorized(c)).unwrap_or(json!({"type": "serde"})),
+            Err(e) => return json!({"api": api, "ffi": {"call_error": e.to_string()}}),
+        }
+    } else {
+        let call = json!({"principal": req["principal"], "action": req["action"], "resource": req["resource"], "context": req["context"],
+                          "policies": {"staticPolicies": static_policies}, "entities": req["entities"]});
+        match cedar_policy::ffi::is_authorized_json(call) {
+            Ok(a) => a,
+            Err(e) => return json!({"api": api, "ffi": {"call_error": e.to_string()}}),
+        }
+    };
+    let ffi = if ans["type"] == "success" {
+        let d = &ans["response"];
+        let mut rs: Vec<String> = d["diagnostics"]["reason"].as_array().cloned().unwrap_or_default().iter().filter_map(|x| x.as_str().map(|s| s.to_string())).collect();
+        rs.sort();
+        let mut es: Vec<String> = d["diagnostics"]["errors"].as_array().cloned().unwrap_or_default().iter().filter_map(|x| x["policyId"].as_str().map(|s| s.to_string())).collect();
+        es.sort();
+        json!({"decision": d["decision"], "reasons": rs, "errors": es})
+    } else {
+        json!({"failure": ans})
+    };
+    json!({"api": api, "ffi": ffi})
+}
+
+/// normalised view of an `AuthorizationAnswer` in JSON: decision, sorted reasons, sorted erroring policy ids - or "failure"
+fn norm_ffi_answer(ans: &J) -> J {
+    if ans["type"] == "success" {
+        let d = &ans["response"];
+        let mut rs: Vec<String> = d["diagnostics"]["reason"].as_array().cloned().unwrap_or_default().iter().filter_map(|x| x.as_str().map(|s| s.to_string())).collect();
+        rs.sort();
+        let mut es: Vec<String> = d["diagnostics"]["errors"].as_array().cloned().unwrap_or_default().iter().filter_map(|x| x["policyId"].as_str().map(|s| s.to_string())).collect();
+        es.sort();
+        json!({"decision": d["decision"], "reasons": rs, "errors": es})
+    } else if ans["type"] == "failure" {
+        json!({"failure": true, "n_errors": ans["errors"].as_array().map(|a| a.len()).unwrap_or(0)})
+    } else {
+        json!({"other": ans})
+    }
+}
+
+fn norm_api_response(r: &cedar_policy::Response) -> J {
+    let mut reasons: Vec<String> = r.diagnostics().reason().map(|p| p.to_string()).collect();
+    reasons.sort();
+    let mut errors: Vec<String> = r.diagnostics().errors().map(|e| match e { cedar_policy::AuthorizationError::PolicyEvaluationError(pe) => pe.policy_id().to_string() }).collect();
+    errors.sort();
+    json!({"decision": format!("{:?}", r.decision()).to_lowercase(), "reasons": reasons, "errors": errors})
+}
+
+/// The policy set the descriptors stand for, assembled with the public API only.
+fn api_policy_set(req: &J) -> Result<PolicySet, String> {
+    use cedar_policy::{EntityUid, Policy, PolicyId, SlotId, Template};
+    use std::str::FromStr;
+    let uid = |j: &J| -> Result<EntityUid, String> {
+        Ok(EntityUid::from_type_name_and_id(j["type"].as_str().unwrap_or("").parse().map_err(|e| format!("{e}"))?, j["id"].as_str().unwrap_or("").parse().map_err(|e| format!("{e}"))?))
+    };
+    let one = |id: Option<PolicyId>, d: &J| -> Result<Policy, String> {
+        if let Some(t) = d["cedar"].as_str() { Policy::parse(id, t).map_err(|e| e.to_string()) } else { Policy::from_json(id, d["json"].clone()).map_err(|e| e.to_string()) }
+    };
+    let st = &req["static"];
+    let mut ps = match st["kind"].as_str().unwrap_or("") {
+        "concat" => {
+            let ps = PolicySet::from_str(st["text"].as_str().unwrap_or("")).map_err(|e| e.to_string())?;
+            if ps.templates().count() > 0 { return Err("template in static set".into()); }
+            ps
+        }
+        "set" => {
+            let mut v = vec![];
+            for d in st["items"].as_array().cloned().unwrap_or_default() { v.push(one(None, &d)?); }
+            PolicySet::from_policies(v).map_err(|e| e.to_string())?
+        }
+        "map" => {
+            let mut v = vec![];
+            for (id, d) in st["items"].as_object().cloned().unwrap_or_default() { v.push(one(Some(PolicyId::new(id)), &d)?); }
+            PolicySet::from_policies(v).map_err(|e| e.to_string())?
+        }
+        _ => PolicySet::new(),
+    };
+    for (id, d) in req["templates"].as_object().cloned().unwrap_or_default() {
+        let t = if let Some(t) = d["cedar"].as_str() { Template::parse(Some(PolicyId::new(id)), t).map_err(|e| e.to_string())? } else { Template::from_json(Some(PolicyId::new(id)), d["json"].clone()).map_err(|e| e.to_string())? };
+        ps.add_template(t).map_err(|e| e.to_string())?;
+    }
+    for l in req["links"].as_array().cloned().unwrap_or_default() {
+        let mut vals = std::collections::HashMap::new();
+        for (slot, e) in l["values"].as_object().cloned().unwrap_or_default() {
+            let s = match slot.as_str() { "?principal" => SlotId::principal(), "?resource" => SlotId::resource(), _ => return Err("bad slot".into()) };
+            vals.insert(s, uid(&e)?);
+        }
+        ps.link(PolicyId::new(l["templateId"].as_str().unwrap_or("")), PolicyId::new(l["newId"].as_str().unwrap_or("")), vals).map_err(|e| e.to_string())?;
+    }
+    Ok(ps)
+}
+
+/// The Rust API answer for a call whose policy set / schema are given by explicit shape descriptors (written against the public API only).
+fn api_for_shapes(req: &J) -> Result<J, String> {
+    use cedar_policy::{Context, EntityUid, Schema};
+    let uid = |j: &J| -> Result<EntityUid, String> {
+        Ok(EntityUid::from_type_name_and_id(j["type"].as_str().unwrap_or("").parse().map_err(|e| format!("{e}"))?, j["id"].as_str().unwrap_or("").parse().map_err(|e| format!("{e}"))?))
+    };
+    let ps = api_policy_set(req)?;
+    let schema = if req["schema"].is_null() { None } else if let Some(t) = req["schema"]["cedar"].as_str() {
+        Some(Schema::from_cedarschema_str(t).map_err(|e| e.to_string())?.0)
+    } else {
+        Some(Schema::from_json_value(req["schema"]["json"].clone()).map_err(|e| e.to_string())?)
+    };
+    let (p, a, r) = (uid(&req["principal"])?, uid(&req["action"])?, uid(&req["resource"])?);
+    let cx = Context::from_json_value(req["context"].clone(), schema.as_ref().map(|s| (s, &a))).map_err(|e| e.to_string())?;
+    let validate = req["validate"].as_bool().unwrap_or(true);
+    let q = Request::new(p, a, r, cx, if validate { schema.as_ref() } else { None }).map_err(|e| e.to_string())?;
+    let ents = Entities::from_json_value(req["entities"].clone(), schema.as_ref()).map_err(|e| e.to_string())?;
+    Ok(norm_api_response(&Authorizer::new().is_authorized(&q, &ps, &ents)))
+}
+
+/// the `policies` / `schema` documents of the JSON interface for the same descriptors
+fn ffi_docs_for_shapes(req: &J) -> (J, J) {
+    let one = |d: &J| -> J { if let Some(t) = d["cedar"].as_str() { json!(t) } else { d["json"].clone() } };
+    let st = &req["static"];
+    let stat = match st["kind"].as_str().unwrap_or("") {
+        "concat" => json!(st["text"]),
+        "set" => J::Array(st["items"].as_array().cloned().unwrap_or_default().iter().map(one).collect()),
+        "map" => J::Object(st["items"].as_object().cloned().unwrap_or_default().iter().map(|(k, v)| (k.clone(), one(v))).collect()),
+        _ => json!([]),
+    };
+    let templates = J::Object(req["templates"].as_object().cloned().unwrap_or_default().iter().map(|(k, v)| (k.clone(), one(v))).collect());
+    let links = req["links"].as_array().cloned().unwrap_or_default();
+    let schema = if req["schema"].is_null() { J::Null } else if let Some(t) = req["schema"]["cedar"].as_str() { json!(t) } else { req["schema"]["json"].clone() };
+    (json!({"staticPolicies": stat, "templates": templates, "templateLinks": links}), schema)
+}
+
+fn ffi_shapes(req: &J) -> J {
+    let api = match api_for_shapes(req) { Ok(a) => a, Err(e) => json!({"failure": true, "why": e}) };
+    let (policies, schema) = ffi_docs_for_shapes(req);
+    let mut call = json!({"principal": req["principal"], "action": req["action"], "resource": req["resource"], "context": req["context"],
+                          "policies": policies, "entities": req["entities"], "validateRequest": req["validate"].as_bool().unwrap_or(true)});
+    if !schema.is_null() { call["schema"] = schema; }
+    let ffi = match cedar_policy::ffi::is_authorized_json(call) { Ok(a) => norm_ffi_answer(&a), Err(e) => json!({"call_error": e.to_string()}) };
+    json!({"api": api, "ffi": ffi})
+}
+
+/// A history of preparse / stateful calls, run on a fresh thread (fresh thread-local caches).  Each authorize step may carry the
+/// stateless call the caller's model says is equivalent; both answers are returned.
+fn ffi_history(req: &J) -> J {
+    let steps = req["steps"].as_array().cloned().unwrap_or_default();
+    let h = std::thread::spawn(move || {
+        let mut out = vec![];
+        for s in steps {
+            match s["do"].as_str().unwrap_or("") {
+                "preparse_policy_set" => {
+                    let a = match serde_json::from_value(s["policies"].clone()) {
+                        Ok(p) => serde_json::to_value(cedar_policy::ffi::preparse_policy_set(s["name"].as_str().unwrap_or("").to_string(), p)).unwrap_or(J::Null),
+                        Err(e) => json!({"type": "failure", "call_error": e.to_string()}),
+                    };
+                    out.push(json!({"type": a["type"]}));
+                }
+                "preparse_schema" => {
+                    let a = match serde_json::from_value(s["schema"].clone()) {
+                        Ok(p) => serde_json::to_value(cedar_policy::ffi::preparse_schema(s["name"].as_str().unwrap_or("").to_string(), p)).unwrap_or(J::Null),
+                        Err(e) => json!({"type": "failure", "call_error": e.to_string()}),
+                    };
+                    out.push(json!({"type": a["type"]}));
+                }
+                "authorize" => {
+                    let stateful = match serde_json::from_value(s["call"].clone()) {
+                        Ok(c) => norm_ffi_answer(&serde_json::to_value(cedar_policy::ffi::stateful_is_authorized(c)).unwrap_or(J::Null)),
+                        Err(e) => json!({"call_error": e.to_string()}),
+                    };
+                    let stateless = if s["stateless"].is_null() { J::Null } else {
+                        match cedar_policy::ffi::is_authorized_json(s["stateless"].clone()) { Ok(a) => norm_ffi_answer(&a), Err(e) => json!({"call_error": e.to_string()}) }
+                    };
+                    out.push(json!({"stateful": stateful, "stateless": stateless}));
+                }
+                other => out.push(json!({"unknown_step": other})),
+            }
+        }
+        out
+    });
+    match h.join() { Ok(o) => json!({"answers": o}), Err(_) => json!({"panic": "history thread"}) }
+}
+
+/// validate_json against Validator::validate on the same policy-set / schema descriptors
+fn ffi_validate(req: &J) -> J {
+    use cedar_policy::{Schema, ValidationMode, Validator};
+    let api = (|| -> Result<J, String> {
+        // policies through the same reference assembly as ffi_shapes (public API only)
+        let mut r2 = req.clone();
+        r2["schema"] = J::Null;
+        let ps = api_policy_set(&r2)?;
+        let schema = if let Some(t) = req["schema"]["cedar"].as_str() { Schema::from_cedarschema_str(t).map_err(|e| e.to_string())?.0 } else { Schema::from_json_value(req["schema"]["json"].clone()).map_err(|e| e.to_string())? };
+        let res = Validator::new(schema).validate(&ps, ValidationMode::default());
+        let mut es: Vec<(String, String)> = res.validation_errors().map(|e| (e.policy_id().to_string(), e.to_string())).collect();
+        let mut ws: Vec<(String, String)> = res.validation_warnings().map(|e| (e.policy_id().to_string(), e.to_string())).collect();
+        es.sort();
+        ws.sort();
+        Ok(json!({"errors": es, "warnings": ws}))
+    })();
+    let api = match api { Ok(a) => a, Err(e) => json!({"failure": true, "why": e}) };
+    let (policies, schema) = ffi_docs_for_shapes(req);
+    let call = json!({"schema": schema, "policies": policies});
+    let ffi = match cedar_policy::ffi::validate_json(call) {
+        Ok(a) if a["type"] == "success" => {
+            let view = |k: &str| -> Vec<(String, String)> {
+                let mut v: Vec<(String, String)> = a[k].as_array().cloned().unwrap_or_default().iter().map(|x| (x["policyId"].as_str().unwrap_or("?").to_string(), x["error"]["message"].as_str().unwrap_or("?").to_string())).collect();
+                v.sort();
+                v
+            };
+            json!({"errors": view("validationErrors"), "warnings": view("validationWarnings")})
+        }
+        Ok(_) => json!({"failure": true}),
+        Err(e) => json!({"call_error": e.to_string()}),
+    };
+    json!({"api": api, "ffi": ffi})
+}
+
+/// conversions and parse checks of the JSON interface against the API calls they stand for
+fn ffi_convert(req: &J) -> J {
+    use cedar_policy::{Policy, Schema, SchemaFragment, Template};
+    let what = req["what"].as_str().unwrap_or("");
+    let doc = &req["doc"];
+    let fail = |e: String| json!({"failure": true, "why": e});
+    let ffi_of = |a: Result<J, serde_json::Error>, key: &str| -> J {
+        match a { Ok(a) if a["type"] == "success" => json!({"ok": a[key]}), Ok(_) => json!({"failure": true}), Err(e) => json!({"call_error": e.to_string()}) }
+    };
+    let ffi_doc = if let Some(t) = doc["cedar"].as_str() { json!(t) } else { doc["json"].clone() };
+    match what {
+        "policy_to_json" | "policy_to_text" => {
+            let p = if let Some(t) = doc["cedar"].as_str() { Policy::parse(None, t).map_err(|e| e.to_string()) } else { Policy::from_json(None, doc["json"].clone()).map_err(|e| e.to_string()) };
+            let api = match p { Err(e) => fail(e), Ok(p) => if what == "policy_to_json" { match p.to_json() { Ok(j) => json!({"ok": j}), Err(e) => fail(e.to_string()) } } else { json!({"ok": p.to_string()}) } };
+            let ffi = match serde_json::from_value(ffi_doc) {
+                Ok(d) => if what == "policy_to_json" { ffi_of(serde_json::to_value(cedar_policy::ffi::policy_to_json(d)), "json") } else { ffi_of(serde_json::to_value(cedar_policy::ffi::policy_to_text(d)), "text") },
+                Err(e) => json!({"call_error": e.to_string()}),
+            };
+            json!({"api": api, "ffi": ffi})
+        }
+        "template_to_json" | "template_to_text" => {
+            let p = if let Some(t) = doc["cedar"].as_str() { Template::parse(None, t).map_err(|e| e.to_string()) } else { Template::from_json(None, doc["json"].clone()).map_err(|e| e.to_string()) };
+            let api = match p { Err(e) => fail(e), Ok(p) => if what == "template_to_json" { match p.to_json() { Ok(j) => json!({"ok": j}), Err(e) => fail(e.to_string()) } } else { json!({"ok": p.to_string()}) } };
+            let ffi = match serde_json::from_value(ffi_doc) {
+                Ok(d) => if what == "template_to_json" { ffi_of(serde_json::to_value(cedar_policy::ffi::template_to_json(d)), "json") } else { ffi_of(serde_json::to_value(cedar_policy::ffi::template_to_text(d)), "text") },
+                Err(e) => json!({"call_error": e.to_string()}),
+            };
+            json!({"api": api, "ffi": ffi})
+        }
+        "schema_to_json" | "schema_to_text" => {
+            let mk = || if let Some(t) = doc["cedar"].as_str() { SchemaFragment::from_cedarschema_str(t).map(|x| x.0).map_err(|e| e.to_string()) } else { SchemaFragment::from_json_value(doc["json"].clone()).map_err(|e| e.to_string()) };
+            let api = match (mk(), mk()) {
+                (Err(e), _) | (_, Err(e)) => fail(e),
+                (Ok(f0), Ok(f)) => {
+                    let out = if what == "schema_to_json" { f0.to_json_value().map_err(|e| e.to_string()) } else { f0.to_cedarschema().map(|t| json!(t)).map_err(|e| e.to_string()) };
+                    match out { Err(e) => fail(e), Ok(o) => match Schema::from_schema_fragments([f]) { Ok(_) => json!({"ok": o}), Err(e) => fail(e.to_string()) } }
+                }
+            };
+            let ffi = match serde_json::from_value(ffi_doc) {
+                Ok(d) => if what == "schema_to_json" { ffi_of(serde_json::to_value(cedar_policy::ffi::schema_to_json(d)), "json") } else { ffi_of(serde_json::to_value(cedar_policy::ffi::schema_to_text(d)), "text") },
+                Err(e) => json!({"call_error": e.to_string()}),
+            };
+            json!({"api": api, "ffi": ffi})
+        }
+        "check_parse_policy_set" => {
+            let api = match api_policy_set(req) { Ok(_) => json!({"ok": true}), Err(e) => fail(e) };
+            let (policies, _) = ffi_docs_for_shapes(req);
+            let ffi = match cedar_policy::ffi::check_parse_policy_set_json(policies) { Ok(a) if a["type"] == "success" => json!({"ok": true}), Ok(_) => json!({"failure": true}), Err(e) => json!({"call_error": e.to_string()}) };
+            json!({"api": api, "ffi": ffi})
+        }
+        "check_parse_schema" => {
+            let api = match if let Some(t) = doc["cedar"].as_str() { Schema::from_cedarschema_str(t).map(|x| x.0).map_err(|e| e.to_string()) } else { Schema::from_json_value(doc["json"].clone()).map_err(|e| e.to_string()) } { Ok(_) => json!({"ok": true}), Err(e) => fail(e) };
+            let ffi = match cedar_policy::ffi::check_parse_schema_json(ffi_doc) { Ok(a) if a["type"] == "success" => json!({"ok": true}), Ok(_) => json!({"failure": true}), Err(e) => json!({"call_error": e.to_string()}) };
+            json!({"api": api, "ffi": ffi})
+        }
+        "check_parse_entities" => {
+            let schema = if req["schema"].is_null() { Ok(None) } else if let Some(t) = req["schema"]["cedar"].as_str() { Schema::from_cedarschema_str(t).map(|x| Some(x.0)).map_err(|e| e.to_string()) } else { Schema::from_json_value(req["schema"]["json"].clone()).map(Some).map_err(|e| e.to_string()) };
+            let api = match schema { Err(e) => fail(e), Ok(s) => match Entities::from_json_value(req["entities"].clone(), s.as_ref()) { Ok(_) => json!({"ok": true}), Err(e) => fail(e.to_string()) } };
+            let mut call = json!({"entities": req["entities"]});
+            if !req["schema"].is_null() { call["schema"] = if let Some(t) = req["schema"]["cedar"].as_str() { json!(t) } else { req["schema"]["json"].clone() }; }
+            let ffi = match cedar_policy::ffi::check_parse_entities_json(call) { Ok(a) if a["type"] == "success" => json!({"ok": true}), Ok(_) => json!({"failure": true}), Err(e) => json!({"call_error": e.to_string()}) };
+            json!({"api": api, "ffi": ffi})
+        }
+        "check_parse_context" | "check_parse_scope_variables" => {
+            use cedar_policy::{Context, EntityUid};
+            let uid = |j: &J| -> Result<EntityUid, String> { EntityUid::from_json(j.clone()).map_err(|e| e.to_string()) };
+            let parse_schema = |d: &J| -> Result<Schema, String> { if let Some(t) = d["cedar"].as_str() { Schema::from_cedarschema_str(t).map(|x| x.0).map_err(|e| e.to_string()) } else { Schema::from_json_value(d["json"].clone()).map_err(|e| e.to_string()) } };
+            let ffi_schema = |d: &J| -> J { if let Some(t) = d["cedar"].as_str() { json!(t) } else { d["json"].clone() } };
+            if what == "check_parse_context" {
+                let api = (|| -> Result<(), String> {
+                    let action = if req["action"].is_null() { None } else { Some(uid(&req["action"])?) };
+                    let schema = if req["schema"].is_null() { None } else { Some(parse_schema(&req["schema"])?) };
+                    let both = match (&schema, &action) { (Some(s), Some(a)) => Some((s, a)), _ => None };
+                    let cx = Context::from_json_value(req["context"].clone(), both).map_err(|e| e.to_string())?;
+                    if let Some((s, a)) = both { cx.validate(s, a).map_err(|e| e.to_string())?; }
+                    Ok(())
+                })();
+                let api = match api { Ok(()) => json!({"ok": true}), Err(e) => fail(e) };
+                let mut call = json!({"context": req["context"]});
+                if !req["action"].is_null() { call["action"] = req["action"].clone(); }
+                if !req["schema"].is_null() { call["schema"] = ffi_schema(&req["schema"]); }
+                let ffi = match cedar_policy::ffi::check_parse_context_json(call) { Ok(a) if a["type"] == "success" => json!({"ok": true}), Ok(_) => json!({"failure": true}), Err(e) => json!({"call_error": e.to_string()}) };
+                json!({"api": api, "ffi": ffi})
+            } else {
+                let api = (|| -> Result<(), String> {
+                    let schema = parse_schema(&req["schema"])?;
+                    let (p, a, r) = (uid(&req["principal"])?, uid(&req["action"])?, uid(&req["resource"])?);
+                    cedar_policy::validate_scope_variables(&p, &a, &r, &schema).map_err(|e| e.to_string())
+                })();
+                let api = match api { Ok(()) => json!({"ok": true}), Err(e) => fail(e) };
+                let call = json!({"schema": ffi_schema(&req["schema"]), "principal": req["principal"], "action": req["action"], "resource": req["resource"]});
+                let ffi = match cedar_policy::ffi::check_parse_scope_variables_json(call) { Ok(a) if a["type"] == "success" => json!({"ok": true}), Ok(_) => json!({"failure": true}), Err(e) => json!({"call_error": e.to_string()}) };
+                json!({"api": api, "ffi": ffi})
+            }
+        }
+        "format" => {
+            let cfg = cedar_policy_formatter::Config { line_width: req["line_width"].as_u64().unwrap_or(80) as usize, indent_width: req["indent_width"].as_i64().unwrap_or(2) as isize };
+            let api = match cedar_policy_formatter::policies_str_to_pretty(req["text"].as_str().unwrap_or(""), &cfg) { Ok(t) => json!({"ok": t}), Err(e) => fail(e.to_string()) };
+            let call = json!({"policyText": req["text"], "lineWidth": req["line_width"], "indentWidth": req["indent_width"]});
+            let ffi = ffi_of(cedar_policy::ffi::format_json(call), "formatted_policy");
+            json!({"api": api, "ffi": ffi})
+        }
+        other => json!({"unknown_conversion": other}),
+    }
+}
+
 fn handle(req: &J) -> J {
     match req["op"].as_str().unwrap_or("") {
         "eval" => eval(req),
@@ -849,6 +1224,11 @@ fn handle(req: &J) -> J {
         "est_roundtrip" => est_roundtrip(req),
         "policyset_merge" => policyset_merge(req),
         "link_json" => link_json(req),
+        "ffi_authorize" => ffi_authorize(req),
+        "ffi_shapes" => ffi_shapes(req),
+        "ffi_history" => ffi_history(req),
+        "ffi_validate" => ffi_validate(req),
+        "ffi_convert" => ffi_convert(req),
         other => json!({"unknown_op": other}),
     }
 }
